@@ -555,8 +555,13 @@ def run(ctx):
                 case = {"kind": "assembler", "tree": rc}
                 ctx.case(case, nontrivial=rc["n"] >= 3, klass="assembler")
             execute(ctx, case)
-        for j, rc in enumerate(G.sweep_recipes(ctx, max_small=4097, large=1, numbering="sorted",
-                                               shapes=["bamboo", "neuron", "caterpillar"])):
+        sweep = G.sweep_recipes(ctx, max_small=4097, large=0 if ctx.quick else 1,
+                                numbering="sorted", shapes=["bamboo", "neuron", "caterpillar"])
+        if ctx.quick and ctx.shard == 0:  # one tree beyond 46 341 nodes (few, long branches)
+            sweep.append({"shape": "bamboo", "n": 50000, "numbering": "sorted", "geom": "growth",
+                          "types": "soma", "extras": 0, "seed": 4240 + 5 * ctx.seed})
+        for j, rc in enumerate(sweep):
+            rc["seed"] -= rc["seed"] % 5  # (seeds 1, 2 mod 5 take the derived / branch-tree routes)
             # node counts on / next to powers of two, and one big branched tree
             case = {"kind": "tree", "tree": rc, "spacing_mode": "rel",
                     "factor": [3.0, 0.7, 10.0][j % 3]}
